@@ -49,7 +49,7 @@ structure ParseAcc where
 
 /-- `parse_trace(trace, network)` on already split lines -/
 def parseTrace (trace : List TraceLine) (delay : Nat) : SimQueue :=
-  let init : ParseAcc := ⟨SimQueue.empty, ⟨100 * msec, []⟩, ⟨100 * msec, []⟩, 0, 0⟩
+  let init : ParseAcc := ⟨SimQueue.empty, ⟨Gen.SIM_PARSE_WINDOW_NS, []⟩, ⟨Gen.SIM_PARSE_WINDOW_NS, []⟩, 0, 0⟩
   let acc := trace.foldl (fun (acc : ParseAcc) (l : TraceLine) =>
     let ts : Int := l.1
     if l.2 then
@@ -60,7 +60,7 @@ def parseTrace (trace : List TraceLine) (delay : Nat) : SimQueue :=
       let sq := acc.sq.pushSim ⟨.normalSent, ts - delay, false, false, false, false⟩
       let (m, w) := acc.recvW.add ts
       { acc with sq := sq, recvW := w, recvMax := if m > acc.recvMax then m else acc.recvMax }) init
-  { acc.sq with maxPps := some (max acc.sentMax acc.recvMax * 10) }
+  { acc.sq with maxPps := some (max acc.sentMax acc.recvMax * Gen.SIM_PARSE_PPS_FACTOR) }
 
 /-! ### sim_advanced -/
 
@@ -89,7 +89,7 @@ def initState (mc ms : List Machine) (sq : SimQueue) (args : Args) (orc : σ) : 
   let t0 ← firstTimeE sq
   let (c, orc) ← Side.new ρ mc t0 args.fpClient args.fbClient orc
   let (s, orc) ← Side.new ρ ms t0 args.fpServer args.fbServer orc
-  let net ← Bottleneck.new args.network 1000000000 sq.maxPps
+  let net ← Bottleneck.new args.network Gen.SIM_BOTTLENECK_WINDOW_NS sq.maxPps
   pure { sq := sq, client := c, server := s, net := net, now := t0, orc := orc }
 
 /-- one iteration of the main loop up to (not including) recording and the stop tests:
